@@ -13,6 +13,7 @@
 #include <cstring>
 #include <sstream>
 #include <fstream>
+#include <sys/mman.h>
 using namespace pv;
 
 namespace {
@@ -20,6 +21,19 @@ int g_watch_fd = -1;
 std::vector<long> g_sched;     // >0: return at most that many bytes; 0: EINTR; -e: fail with errno e
 size_t g_sched_pos = 0;
 std::string g_log;             // what the code asked for, per call on the watched fd
+long g_mmap_fail_from = -1;    // >= 0: file-backed mmap calls on the watched fd fail (ENODEV) from this call index on
+long g_mmap_calls = 0;
+}
+
+// mmap(2) on the watched descriptor can be made to fail, which is what a file system without mmap support, an
+// exhausted address space or vm.max_map_count looks like to FilePiece (it then falls back to read(2))
+extern "C" void *mmap(void *addr, size_t length, int prot, int flags, int fd, off_t offset) {
+  if (fd >= 0 && fd == g_watch_fd && g_mmap_fail_from >= 0) {
+    long k = g_mmap_calls++;
+    g_log += "m" + std::to_string((long long)offset) + " ";
+    if (k >= g_mmap_fail_from) { errno = ENODEV; return MAP_FAILED; }
+  }
+  return (void *)syscall(SYS_mmap, addr, length, prot, flags, fd, offset);
 }
 
 extern "C" ssize_t read(int fd, void *buf, size_t count) {
@@ -106,7 +120,11 @@ static Reg r_reader_lines("reader.lines", [](const std::vector<std::string> &a) 
       } catch (...) { g_watch_fd = -1; w.join(); throw; }
       g_watch_fd = -1;
       w.join();
-    } else if (a[0] == "file") {
+    } else if (a[0] == "file" || a[0].rfind("filenommap", 0) == 0) {
+      // "filenommap:<k>": the k-th and all later mmap calls on the file fail
+      g_mmap_fail_from = -1;
+      g_mmap_calls = 0;
+      if (a[0] != "file") g_mmap_fail_from = a[0].size() > 11 ? strtol(a[0].c_str() + 11, NULL, 10) : 0;
       char name[] = "/verif/.cache/tmp/pvreaderXXXXXX";
       int fd = mkstemp(name);
       if (fd < 0) return "ERR:mkstemp";
@@ -115,10 +133,11 @@ static Reg r_reader_lines("reader.lines", [](const std::vector<std::string> &a) 
       while (off < data.size()) { ssize_t k = syscall(SYS_write, fd, data.data() + off, data.size() - off); if (k <= 0) break; off += k; }
       lseek(fd, start, SEEK_SET);
       set_sched(a[4]);
-      g_watch_fd = fd;        // only used if FilePiece falls back to read (compressed content)
+      g_watch_fd = fd;        // only used if FilePiece falls back to read (compressed content, failing mmap)
       util::FilePiece f(fd, "file", NULL, min_buffer);
       out = collect(f, d[0], strip, how);
       g_watch_fd = -1;
+      g_mmap_fail_from = -1;
     } else if (a[0] == "istream") {
       std::istringstream is(data);
       util::FilePiece f(is, "istream", min_buffer);
@@ -126,9 +145,11 @@ static Reg r_reader_lines("reader.lines", [](const std::vector<std::string> &a) 
     } else return "bad-op";
   } catch (const util::EndOfFileException &) {
     g_watch_fd = -1;
+    g_mmap_fail_from = -1;
     return "ERR:eof";
   } catch (const util::Exception &e) {
     g_watch_fd = -1;
+    g_mmap_fail_from = -1;
     return "ERR:exception";
   }
   return out;
